@@ -53,7 +53,17 @@ pub enum Kind {
     Drop = 10,
     /// an injected panic fires: stage, a = argument id
     Panic = 11,
+    /// yield point inside a dependency (vendored copy with hooks): stage = site, a, b = site specific
+    /// (claim: a = first position, b = number of positions claimed)
+    Dep = 12,
 }
+
+pub const DEP_CLAIM: u16 = 1;
+pub const DEP_SPIN: u16 = 2;
+pub const DEP_SKIP: u16 = 3;
+pub const DEP_LEN: u16 = 4;
+pub const DEP_BAG_SPIN: u16 = 12;
+pub const DEP_BAG_GROW: u16 = 13;
 
 #[derive(Clone, Copy, Debug, PartialEq, Eq)]
 pub struct Event {
@@ -204,6 +214,8 @@ struct State {
     pct_points: Vec<u64>,
     since_starved: u64,
     quiet_ctr: u64,
+    /// slots that found a lock of a dependency taken and yielded: not eligible until another slot has made a step
+    spinning: Vec<bool>,
 }
 
 impl State {
@@ -225,6 +237,7 @@ impl State {
             pct_points: vec![],
             since_starved: 0,
             quiet_ctr: 0,
+            spinning: vec![],
         }
     }
 }
@@ -262,6 +275,14 @@ pub struct RunRecord {
     pub diverged: bool,
 }
 
+fn dep_hook(site: u32, a: usize, b: usize) {
+    if mode() != MODE_SIM {
+        return;
+    }
+    let spin = site as u16 == DEP_SPIN || site as u16 == DEP_BAG_SPIN;
+    event_ex(Kind::Dep, site as u16, a as u64, b as u64, true, spin);
+}
+
 static HOOKS: Hooks = Hooks {
     run_begin: hook_run_begin,
     run_end: hook_run_end,
@@ -274,10 +295,14 @@ static HOOKS: Hooks = Hooks {
 
 pub fn install_hooks() {
     verif::install(&HOOKS);
+    orx_concurrent_iter::verif::install(dep_hook);
+    orx_pinned_concurrent_col::verif::install(dep_hook);
 }
 
 pub fn uninstall_hooks() {
     verif::uninstall();
+    orx_concurrent_iter::verif::uninstall();
+    orx_pinned_concurrent_col::verif::uninstall();
 }
 
 /// Starts a simulated run: the calling thread becomes slot 0 and holds the token.
@@ -348,12 +373,20 @@ fn do_abort(st: &mut State, reason: &str) {
 }
 
 fn runnable(st: &State) -> Vec<usize> {
-    st.slots
+    let all: Vec<usize> = st
+        .slots
         .iter()
         .enumerate()
         .filter(|(_, s)| s.status == Status::Runnable)
         .map(|(i, _)| i)
-        .collect()
+        .collect();
+    // a slot that spins on a lock of a dependency cannot make progress until somebody else has run
+    let awake: Vec<usize> = all.iter().copied().filter(|i| !st.spinning.get(*i).copied().unwrap_or(false)).collect();
+    if awake.is_empty() {
+        all
+    } else {
+        awake
+    }
 }
 
 /// Which slot does Starve(k) starve right now: ordinal k within the newest frame, 255 = the spawner.
@@ -528,6 +561,10 @@ pub fn note(kind: Kind, stage: u16, a: u64, b: u64) -> bool {
 }
 
 fn event(kind: Kind, stage: u16, a: u64, b: u64, may_yield: bool) -> bool {
+    event_ex(kind, stage, a, b, may_yield, false)
+}
+
+fn event_ex(kind: Kind, stage: u16, a: u64, b: u64, may_yield: bool, spin: bool) -> bool {
     match mode() {
         MODE_OFF => false,
         MODE_REF | MODE_FREE => {
@@ -581,6 +618,18 @@ fn event(kind: Kind, stage: u16, a: u64, b: u64, may_yield: bool) -> bool {
                 a,
                 b,
             });
+            if st.spinning.len() < st.slots.len() {
+                let n = st.slots.len();
+                st.spinning.resize(n, false);
+            }
+            if spin {
+                st.spinning[me] = true;
+            } else {
+                // progress: every spinner may look at its lock again
+                for x in st.spinning.iter_mut() {
+                    *x = false;
+                }
+            }
             if may_yield {
                 yield_token(st, me);
                 // re-check abort after regaining control
